@@ -206,6 +206,47 @@ theorem splitOnce_sound (s sep a b : Bytes) (h : splitOnce s sep = some (a, b)) 
         obtain ⟨rfl, rfl⟩ := h
         simp [ih h1 hs]
 
+theorem head_dropWhile_not {α} (p : α → Bool) (l : List α) (a : α) (h : (l.dropWhile p).head? = some a) : p a = false := by
+  induction l with
+  | nil => simp at h
+  | cons x xs ih =>
+    simp only [List.dropWhile] at h
+    cases hp : p x with
+    | true => simp only [hp] at h; exact ih h
+    | false => simp only [hp, List.head?_cons, Option.some.injEq] at h; subst h; exact hp
+
+theorem dropWhile_suffix {α} (p : α → Bool) (l : List α) : ∃ t, l = t ++ l.dropWhile p ∧ ∀ x ∈ t, p x = true := by
+  induction l with
+  | nil => exact ⟨[], rfl, by simp⟩
+  | cons x xs ih =>
+    simp only [List.dropWhile]
+    cases hp : p x with
+    | false => exact ⟨[], rfl, by simp⟩
+    | true =>
+      obtain ⟨t, ht, hall⟩ := ih
+      refine ⟨x :: t, by simp [← ht], ?_⟩
+      intro y hy
+      rcases List.mem_cons.mp hy with rfl | hy
+      · exact hp
+      · exact hall y hy
+
+/-- `strings.TrimRight(s, b)`: what is left does not end in `b`, and only `b`s were removed from the end -/
+theorem trimRightByte_spec (b : UInt8) (s : Bytes) :
+    (trimRightByte b s).getLast? ≠ some b ∧ ∃ t, s = trimRightByte b s ++ t ∧ ∀ x ∈ t, x = b := by
+  unfold trimRightByte
+  constructor
+  · rw [List.getLast?_reverse]
+    intro h
+    have := head_dropWhile_not (· == b) s.reverse b h
+    simp at this
+  · obtain ⟨t, ht, hall⟩ := dropWhile_suffix (· == b) s.reverse
+    refine ⟨t.reverse, ?_, ?_⟩
+    · have := congrArg List.reverse ht
+      simpa using this
+    · intro x hx
+      have := hall x (by simpa using hx)
+      simpa using this
+
 theorem wrap64_le_self (n : Int) (h : 0 ≤ n) : I64.wrap64 n ≤ n := by
   unfold I64.wrap64; omega
 
